@@ -27,9 +27,9 @@ package scheduler
 //@   at call newOperation#2 assert only-cacheable-actions-are-registered:
 //@             (actionDigest in bq.inFlightDeduplicationMap) == !action.DoNotCache
 //@   at call newOperation#2 assert registered-for-the-new-task:
-//@             !action.DoNotCache ==> bq.inFlightDeduplicationMap[actionDigest] == t
+//@             !action.DoNotCache ==> bq.inFlightDeduplicationMap[actionDigest] == arg0
 //@   at call newOperation#1 assert attaches-to-the-registered-task:
-//@             arg0 == bq.inFlightDeduplicationMap[actionDigest] && arg0 != nil
+//@             (actionDigest in bq.inFlightDeduplicationMap) && arg0 == bq.inFlightDeduplicationMap[actionDigest]
 
 // Completing a task may only remove the task's own entry from the in-flight
 // deduplication map, and only when the task is final (not on the retry on the
